@@ -18,7 +18,7 @@ type Lin struct {
 }
 
 func linConst(c int64) Lin { return Lin{C: c, T: map[string]int64{}} }
-func linAtom(a string) Lin  { return Lin{T: map[string]int64{a: 1}} }
+func linAtom(a string) Lin { return Lin{T: map[string]int64{a: 1}} }
 
 func (a Lin) Add(b Lin, sign int64) Lin {
 	out := Lin{C: a.C + sign*b.C, T: map[string]int64{}}
